@@ -560,7 +560,17 @@ def gen_async(seed: int, tier: str = "quick") -> Dict[str, Any]:
     cfg = {"cache": rng.random() < 0.5, "lazy": rng.random() < 0.5, "debug": False, "mli": 100,
            "start_seed": rng.choice([None, rng.randrange(1 << 30)]), "connect_seed": None,
            "order_seed": None, "iteration_cost": rng.choice([0.0, 1e-5])}
-    return {"groups": [None], "sims": sims, "conns": conns, "until": rng.choice([2, 3, 4, 5, 6, 8]),
+    groups = [None]
+    if rng.random() < 0.2:
+        # the whole plant/agent ensemble inside one simulator group (or the agents in a sub-group)
+        groups = [None, 0]
+        for s in sims:
+            s["group"] = 1
+        if rng.random() < 0.4:
+            groups.append(1)
+            for s in sims[1:k + 1]:
+                s["group"] = 2
+    return {"groups": groups, "sims": sims, "conns": conns, "until": rng.choice([2, 3, 4, 5, 6, 8]),
             "config": cfg, "illegal_async": illegal}
 
 
